@@ -391,3 +391,44 @@ def rejections(cfg, fn_node: ast.AST, defs: Defs | None = None) -> list[dict]:
                 dead = True
         out.append({"node": st, "iters": iters, "conds": conds, "dead": dead})
     return out
+
+
+def inline_predicates(ctx, fn: FuncInfo, expr: ast.AST, depth: int = 2) -> ast.AST:
+    """`expr` with calls to one-expression helper functions of the same module replaced by the helper's returned
+    expression (parameters substituted by the arguments) and `bool(x)` replaced by `x`."""
+    from .loader import dotted
+
+    class Inl(ast.NodeTransformer):
+        def visit_Call(self, node: ast.Call):  # noqa: N802
+            self.generic_visit(node)
+            if dotted(node.func) == "bool" and len(node.args) == 1 and not node.keywords:
+                return node.args[0]
+            if depth <= 0:
+                return node
+            for callee in ctx.cg.resolve_callable(fn, node.func):
+                if callee.module.name != fn.module.name:
+                    continue
+                body = [s for s in callee.node.body if not (isinstance(s, ast.Expr) and isinstance(s.value, ast.Constant))]
+                if len(body) == 1 and isinstance(body[0], ast.Return) and body[0].value is not None:
+                    ps = [p for p in callee.param_names() if p not in ("self", "cls")]
+                    if isinstance(node.func, ast.Attribute) and callee.param_names()[:1] == ["self"]:
+                        mapping = {"self": node.func.value}
+                    else:
+                        mapping = {}
+                    mapping.update({ps[i]: a for i, a in enumerate(node.args) if i < len(ps)})
+                    mapping.update({k.arg: k.value for k in node.keywords if k.arg})
+
+                    class Sub(ast.NodeTransformer):
+                        def visit_Name(self, n: ast.Name):  # noqa: N802
+                            return copy.deepcopy(mapping[n.id]) if n.id in mapping else n
+
+                    return inline_predicates(ctx, callee, Sub().visit(copy.deepcopy(body[0].value)), depth - 1)
+            return node
+
+    return Inl().visit(copy.deepcopy(expr))
+
+
+def reordered(expr: ast.AST) -> bool:
+    """The iteration source is explicitly re-ordered (reversed / sorted / a set / a reversing slice)."""
+    t = norm(expr)
+    return any(w in t for w in ("reversed(", "sorted(", "set(", "[::-1]", "frozenset("))
